@@ -120,6 +120,9 @@ def entry_points(obj) -> list:
             continue
         if name in READ_NAMES or name.startswith(READ_PREFIXES):
             out.append((name, "method"))
+    if cls.__name__ == "Document":
+        # the export in its other mode (reStructuredText: tables, images, notes are rendered by other code paths)
+        out.append(("get_formatted_text(rst_mode=True)", "special"))
     if hasattr(cls, "replace") and hasattr(cls, "append_plain_text"):
         out.append(("replace(formatted=True)", "special"))
     if cls.__name__ == "Table":
@@ -168,6 +171,8 @@ def call(obj, name, kind):
     if kind == "special":
         if name == "replace(formatted=True)":
             return obj.replace(" +", None, True)
+        if name == "get_formatted_text(rst_mode=True)":
+            return obj.get_formatted_text(rst_mode=True)
         base, _, arg = name.partition("@")
         fn = getattr(obj, base)
         a = eval(arg)          # noqa: S307 - the argument text is produced by entry_points below
@@ -216,6 +221,48 @@ def generated_spreadsheet(rng):
                + "".join(f'<table:named-range table:name="nr{k if k else ""}" {f}/>' for k, f in enumerate(picked))
                + '<table:named-expression table:name="ex1" table:base-cell-address="$G0.$A$1" table:expression="1+1"/></table:named-expressions>')
         doc.body.append(Element.from_tag(xml))
+    return doc
+
+
+def generated_text(rng):
+    """a text document the exports have something to do with: headings, paragraphs with notes, lists, and 2..4 tables in random
+    order - tables from run-length histories (repeated rows / cells, trailing empty rows and cells, styled empties), a table
+    without any content, a table nested in a cell of another one"""
+    from odfdo import Document, Header, List, Paragraph, Table
+
+    doc = Document("text")
+    body = doc.body
+    body.clear()
+    items = []
+    for i in range(rng.randrange(2, 5)):
+        k = rng.random()
+        if k < 0.3:
+            t = Table(f"E{i}", width=rng.randint(1, 3), height=rng.randint(1, 3))          # nothing to show
+        else:
+            t = T.build_initial(T.gen_history(rng, max_ops=3, reads=False))
+            t.name = f"T{i}"
+            if k < 0.6:
+                # something an aggressive strip would remove: trailing empty rows / cells
+                t.set_value((t.width + 1, t.height + 1), None)
+                t.set_value((0, 0), "first")
+            if k > 0.85:
+                inner = Table(f"N{i}", width=2, height=2)
+                inner.set_value((0, 0), "in")
+                cell = t.get_cell((0, 0), clone=False) if t.height and t.width else None
+                if cell is not None:
+                    cell.append(inner)
+        items.append(t)
+    for i in range(rng.randrange(1, 4)):
+        items.append(Header(1, f"Heading {i}"))
+        p = Paragraph(f"paragraph {i}  with text")
+        if rng.random() < 0.5:
+            p.insert_note(after="paragraph", note_id=f"n{i}", citation="1", body="a note")
+        items.append(p)
+    if rng.random() < 0.5:
+        items.append(List(["one", "two"]))
+    rng.shuffle(items)
+    for it in items:
+        body.append(it)
     return doc
 
 
@@ -272,10 +319,10 @@ def run(chk: core.Check) -> None:
 
     rng = chk.rng
     chk.rule = (
-        "documents: every sample and template (by path, lazily read) + generated spreadsheets with repeated rows / cells / columns; objects: the document, its body, "
+        "documents: every sample and template (by path, lazily read) + generated spreadsheets with repeated rows / cells / columns + generated text documents (headings, paragraphs with notes, lists, 2..4 tables in random order: run-length tables with trailing empties, tables without content, nested tables); objects: the document, its body, "
         "meta, styles, content and manifest parts, and a sample of its tables, rows, cells, paragraphs, headings, spans, lists, frames, notes, tables of content, "
         "links, draw pages; entry points: every property and every method whose name says it only reports (get_*, is_*, search*, traverse*, as_*, to_*, show_*, "
-        "match, text_at, serialize, str, clone, remove_spans / remove_links, export mixins, replace without replacement), in random order, each called twice. "
+        "match, text_at, serialize, str, clone, remove_spans / remove_links, export mixins, replace without replacement, the document export in both modes: plain and reStructuredText), in random order, each called twice. "
         "non-trivial = a call that returned without raising; distinct by (document, object, entry point)"
     )
     docs = [(p.name, (lambda p=p: Document(p))) for p in pkg.sample_files()] + [(f"template:{t}", (lambda t=t: Document(t))) for t in pkg.TEMPLATES]
@@ -284,6 +331,9 @@ def run(chk: core.Check) -> None:
     for i in range(chk.n(6, 60)):
         seed = rng.randrange(10**9)
         docs.append((f"generated#{seed}", (lambda seed=seed: generated_spreadsheet(__import__("random").Random(seed)))))
+    for i in range(chk.n(8, 80)):
+        seed = rng.randrange(10**9)
+        docs.append((f"generated-text#{seed}", (lambda seed=seed: generated_text(__import__("random").Random(seed)))))
     for name, mk in docs:
         try:
             doc = mk()
@@ -301,7 +351,10 @@ def run(chk: core.Check) -> None:
                 calls.append((label, obj, ep, kind))
         rng.shuffle(calls)
         if chk.quick() and len(calls) > 260:
-            calls = calls[:260]
+            # the entry points of the document itself (exports, whole-document reads) are always kept
+            own = [c for c in calls if c[0] == "Document"]
+            calls = own + [c for c in calls if c[0] != "Document"][:max(0, 260 - len(own))]
+            rng.shuffle(calls)
         before = snapshot(doc)
         t_doc = core.now()
         for label, obj, ep, kind in calls:
